@@ -245,8 +245,9 @@ impl Env for RrdpEnv {
             let key = path.strip_prefix("/repo")
                 .and_then(|s| s.split('/').next()).and_then(|s| s.parse::<usize>().ok());
             if let Some(key) = key {
-                // A logged request has been answered: the notification
-                // request of this fetch is over.
+                // The server logs a request when it has decided the answer
+                // (before writing it); the client returns from the fetch
+                // only after reading that answer.
                 *res.started.entry(key).or_insert(0) += 1;
                 *res.completed.entry(key).or_insert(0) += 1;
             }
@@ -595,7 +596,10 @@ fn run_groups(ctx: &mut Ctx, groups: Vec<Vec<Job>>, lanes: usize) {
             per_group[group].0 += 1;
             if !out.finished { per_group[group].1 += 1 }
         }
-        if !res.complete { per_group[group].2 = false }
+        if !res.complete {
+            per_group[group].2 = false;
+            ctx.count(&format!("{}:exploration-capped", meta.variant));
+        }
         if !res.feasible { ctx.count(&format!("{}:infeasible-root", meta.variant)) }
     }
     for (meta, (runs, stuck, complete)) in metas.iter().zip(per_group) {
@@ -683,15 +687,20 @@ pub fn run_c37(ctx: &mut Ctx) {
     let twice = vec![vec![0, 0], vec![0]];
     let three = vec![vec![0], vec![0], vec![0]];
     let three_mixed = vec![vec![0, 1], vec![1, 0], vec![0]];
-    let n = ctx.budget(150, 3000);
+    let n = ctx.budget(150, 1500);
+    // Per subtree (a quarter of a scenario). The largest exhaustive scenario
+    // of the tier has 502 (quick) / 15 346 (thorough) schedules in total; a
+    // code change that removes blocking makes the space explode, so cap it
+    // (a capped scenario is not claimed exhaustive and its count not compared).
+    let cap = if ctx.quick() { 1500 } else { 12_000 };
     let mut groups = Vec::new();
     for variant in ["rsync", "rrdp"] {
         // Two threads, one key, one call (thorough: also two calls): every
         // interleaving.
-        groups.push(exhaustive_jobs(variant, &two_same, usize::MAX));
+        groups.push(exhaustive_jobs(variant, &two_same, cap));
         let twice_sampled = ctx.quick() && !ctx.search;
         if !twice_sampled {
-            groups.push(exhaustive_jobs(variant, &twice, usize::MAX));
+            groups.push(exhaustive_jobs(variant, &twice, cap));
         }
         for (calls, n) in [
             (&two_then, n), (&two_diff, n / 2), (&three, n),
@@ -709,7 +718,7 @@ pub fn run_c37(ctx: &mut Ctx) {
                 variant, calls: three_mixed.clone(), n: n / 6, rng: ctx.rng.fork()
             }).collect());
             // Two keys: every interleaving (15 346 schedules).
-            groups.push(exhaustive_jobs(variant, &two_then, usize::MAX));
+            groups.push(exhaustive_jobs(variant, &two_then, cap));
         }
     }
     run_groups(ctx, groups, lanes());
